@@ -206,7 +206,7 @@ def run(prog, rep):
     row(rep, prog, "limit-not-iterable", q, "ValueError", lambda pc: any(l[0] == "handler" and l[1] == G("TypeError") for l in pc),
         "a limit that is not iterable", anchors=grid)
     row(rep, prog, "nan-density", q, "ValueError",
-        lambda pc: any(l[0] == "call" and l[1][0] == "attr" and l[1][2] == "any" and l[1][1][0] == "call" and l[1][1][1] == G("numpy.isnan") for l in pc),
+        lambda pc: any(l[0] == "call" and l[1] == G("numpy.any") and l[2] and l[2][0][0] == "call" and l[2][0][1] == G("numpy.isnan") for l in pc),
         "NaN in the cell-averaged density", anchors=lambda c: stmts_calling(c, "cumsum_biggest_until"))
     # 2-D only contours
     for cls in ("DirectSamplingContour", "AndContour", "OrContour"):
